@@ -16,6 +16,7 @@ func init() {
 			// synchronised or atomic state is no data race, but a render that reads package-level state which renders
 			// (or the string API) also write gives results that depend on how concurrent calls interleave
 			m.RunSharedWrites(s, "R-SHARED-RW", m.Roots().Render, "history")
+			m.RunProcessState(s, "R-SHARED", m.Roots().Render) // registries and settings the standard library keeps for the whole process
 		},
 	})
 	register(&PropInfo{
@@ -29,6 +30,7 @@ func init() {
 		Assumptions: trustedBase,
 		Run: func(m *Model, s *Sink) {
 			m.RunSharedWrites(s, "R-SHARED", m.Roots().Render, "history")
+			m.RunProcessState(s, "R-SHARED", m.Roots().Render) // registries and settings the standard library keeps for the whole process
 		},
 	})
 }
